@@ -454,6 +454,28 @@ pub fn c04_c05_c06(c: &mut Ctx) {
                 other => c.v("C06", "kill-failed", o.inv_seq, format!("kill() on actor {a} returned {other:?}")),
             }
         }
+        // on_stop(killed=true) begins as soon as the hook in progress at the moment of the kill finishes
+        // (virtual time is exact: computation costs nothing, so "as soon as" is an equality of instants)
+        if let (Some(k), Some((ss, st, true))) = (h.kills(a).iter().filter(|o| matches!(o.res(), Some(Res::Ok))).filter_map(|o| o.ret.as_ref().map(|r| (r.0, r.1))).min(), ar.stop_enter()) {
+            if k.0 < ss && ar.started_ok() {
+                // which hook was open when kill() returned?
+                let open = ar.hook_open_at(k.0).cloned();
+                let blocking_hook_end: Option<u64> = match open {
+                    Some(HookEv::StartEnter) => ar.hooks.iter().find(|(s, _, e)| *s > k.0 && matches!(e, HookEv::StartExit(_))).map(|x| x.1),
+                    Some(HookEv::HEnter(m)) => ar.hooks.iter().find(|(s, _, e)| *s > k.0 && matches!(e, HookEv::HExit(mm, _) if *mm == m)).map(|x| x.1),
+                    _ => Some(k.1), // idle or inside on_run: nothing has to finish first
+                };
+                // before on_start has even begun the kill simply waits for on_start
+                let started_before = ar.hooks.first().map(|x| x.0 < k.0).unwrap_or(false);
+                if let (Some(t_end), true) = (blocking_hook_end, started_before) {
+                    c.chk.hit("C06");
+                    let due = t_end.max(k.1);
+                    if st > due {
+                        c.v("C06", "kill-delayed", ss, format!("actor {a}: kill() returned at t={}us, the hook in progress finished at t={t_end}us, but on_stop(killed=true) only began at t={st}us", k.1));
+                    }
+                }
+            }
+        }
         let first_kill_ret = h.kills(a).iter().filter_map(|o| o.ret.as_ref().map(|r| r.0)).min();
         if let Some(s) = first_kill_ret {
             let stopping_already = ar.stop_enter().map(|x| x.0 < s).unwrap_or(false) || ar.joined.as_ref().map(|j| j.0 < s).unwrap_or(false);
@@ -812,7 +834,28 @@ pub fn c10(c: &mut Ctx) {
                         if *t > deadline + tol {
                             c.v("C10", "timeout-late", *seq, format!("{:?} timed out at t={t}us, after its deadline {deadline}us", o.tag));
                         }
-                        // iff: the operation had not completed before the deadline
+                        // iff: the operation had not completed before the deadline. For a tell that was the
+                        // sole waiter: a slot freed (a message was taken) strictly before the deadline
+                        if o.tag == OpTag::TellT {
+                            for (hs, ht, _) in ar.hooks.iter().filter(|(s, _, e)| *s > o.inv_seq && *s < *seq && matches!(e, HookEv::HEnter(_))) {
+                                if *ht + tol >= deadline {
+                                    continue;
+                                }
+                                let others_waiting = h.ops.iter().any(|p| {
+                                    p.a == Some(a)
+                                        && !std::ptr::eq(p, o)
+                                        && (p.tag.is_send() || p.tag == OpTag::Stop)
+                                        && p.inv_seq < *hs
+                                        && p.end_seq().map(|e| e > *hs).unwrap_or(true)
+                                        && !p.mid.and_then(|m| h.msgs.get(&m)).map(|m| m.henter.first().map(|x| x.0 <= *hs).unwrap_or(false)).unwrap_or(false)
+                                });
+                                if !others_waiting {
+                                    c.chk.hit("C10");
+                                    c.v("C10", "timeout-masks-success", *seq, format!("tell_with_timeout returned Err(Timeout) although it was the only waiting sender when a mailbox slot was freed at t={ht}us, before the deadline {deadline}us"));
+                                    break;
+                                }
+                            }
+                        }
                         if o.tag == OpTag::AskT {
                             if let Some(m) = h.msgs.get(&o.mid.unwrap()) {
                                 if let Some((_, ht, _, Out::Ok)) = m.hexit.first() {
@@ -1091,15 +1134,22 @@ pub fn c14_c15(c: &mut Ctx) {
         // search a chain y -> ... -> x
         let live: Vec<&&OpRec> = asks.iter().filter(|o| o.inv_seq < s && o.end_seq().map(|e| e > s).unwrap_or(true)).collect();
         let path = |edges: &Vec<&&OpRec>| -> Option<Vec<u64>> {
-            // each actor has at most one directly awaited ask in flight
-            let mut cur = y;
-            let mut used = Vec::new();
-            for _ in 0..=h.actors.len() {
-                let e = edges.iter().find(|o| o.who.actor_ctx() == Some(cur))?;
-                used.push(e.inv_seq);
-                cur = e.a.unwrap();
-                if cur == x {
-                    return Some(used);
+            // breadth-first search y -> ... -> x over the given asks (an actor inside a join! may have
+            // several asks in flight)
+            let mut frontier: Vec<(u32, Vec<u64>)> = vec![(y, Vec::new())];
+            let mut seen: Vec<u32> = vec![y];
+            while let Some((cur, used)) = frontier.pop() {
+                for e in edges.iter().filter(|o| o.who.actor_ctx() == Some(cur)) {
+                    let nxt = e.a.unwrap();
+                    let mut u = used.clone();
+                    u.push(e.inv_seq);
+                    if nxt == x {
+                        return Some(u);
+                    }
+                    if !seen.contains(&nxt) {
+                        seen.push(nxt);
+                        frontier.insert(0, (nxt, u));
+                    }
                 }
             }
             None
@@ -1160,7 +1210,8 @@ pub fn c14_c15(c: &mut Ctx) {
     }
     // ---- C14: no cycle of directly awaited asks may be left waiting
     let end = h.last_seq();
-    let pending: Vec<&&OpRec> = asks.iter().filter(|o| o.pending()).collect();
+    // only asks awaited directly by the hook (sub-operations of a join! are outside the property's claim)
+    let pending: Vec<&&OpRec> = asks.iter().filter(|o| o.pending() && o.k < 1000).collect();
     for start in &pending {
         let x = start.who.actor_ctx().unwrap();
         let mut cur = start.a.unwrap();
